@@ -232,6 +232,27 @@ func (vfs *MemFS) createSymlink(parent *dirNode, name, link string) *symlinkNode
 	return child
 }
 
+// ownerOf returns the user id of the owner of the node nd (the caller holds the lock of nd).
+func ownerOf(nd node) int {
+	switch c := nd.(type) {
+	case *dirNode:
+		return c.uid
+	case *fileNode:
+		return c.uid
+	case *symlinkNode:
+		return c.uid
+	}
+
+	return -1
+}
+
+// restrictedDeletion reports whether the sticky bit of the directory dn forbids the user u
+// to remove or rename an entry owned by childUid : only the owner of the directory,
+// the owner of the entry or an administrator can do it (the caller holds the lock of dn).
+func (dn *dirNode) restrictedDeletion(childUid int, u avfs.UserReader) bool {
+	return dn.mode&fs.ModeSticky != 0 && !u.IsAdmin() && dn.uid != u.Uid() && childUid != u.Uid()
+}
+
 // isNotExist is IsNotExist without unwrapping.
 func (vfs *MemFS) isNotExist(err error) bool {
 	return err == vfs.err.NoSuchDir || err == vfs.err.NoSuchFile
